@@ -743,7 +743,7 @@ func TestCheck(t *testing.T) {
 		envs = append(envs, envCfg{"roomy-2", roomy, 20000, 17}, envCfg{"tight-3", tight, 123, 45}, envCfg{"roomy-3", roomy, 5000, 60})
 	}
 	agedConflicts(t, run)
-	rounds := ev.Pick(6, 40)
+	rounds := ev.Pick(6, 100)
 	for ei, ec := range envs {
 		e := newEnv(t, run, ei, ec.name, ec.cfg)
 		if e.p.Rejected != nil {
